@@ -30,7 +30,7 @@ Record lexer : Set := mkLexer {
   inCasePattern : bool }.
 
 (* NewShellLexer(tokens, rest) *)
-Definition new_lexer (tokens : list tok) : lexer := mkLexer [] tokens true 0 0 false.
+Definition new_lexer (tokens : list tok) : lexer := mkLexer [] tokens true (-1) (-1) false.
 
 Definition set_io (s : str) (lx : lexer) : lexer :=
   mkLexer s (remaining lx) (atCommandStart lx) (sinceFor lx) (sinceCase lx) (inCasePattern lx).
@@ -162,7 +162,7 @@ Definition lex_word (token : str) (kind : wkind) (lx : lexer) : lex_result :=
   if (sinceFor lx =? 2) && str_eqb token s_in then LexTok tkIN (set_acs false lx)
   else if (sinceFor lx =? 2) && str_eqb token s_do then LexTok tkDO (set_acs true lx)
   else if (sinceCase lx =? 2) && str_eqb token s_in then LexTok tkIN (set_icp true (set_acs false lx))
-  else if (atCommandStart lx || (sinceCase lx =? 3)) && str_eqb token s_esac then LexTok tkESAC (set_acs false lx)
+  else if (atCommandStart lx || (sinceCase lx =? 3)) && str_eqb token s_esac then LexTok tkESAC (set_icp false (set_acs true lx))
   else if atCommandStart lx && assignment_shaped token then LexTok tkASSIGNMENT_WORD lx
   else if starts_with_hash token then LexEOF lx
   else
